@@ -48,7 +48,7 @@ def gen_case(rng):
             else:
                 enc = rng.random() < 0.5
                 classes = ("ascii", "high", "outside", "ydia") + (() if enc else ("tilde",))
-                s = V.rand_string(rng, 9, classes)
+                s = V.rand_string(rng, 9 if rng.random() < 0.985 else rng.choice([254, 256, 300, 65536, 70001]), classes)
                 unsized = (i == nf - 1) and rng.random() < 0.5
                 fields.append(("str", enc, unsized, s))
         chunks.append(fields)
